@@ -2233,7 +2233,7 @@ def lex_tokens(line):
     def stash(match):
         chars.append(match.group(0))
         return ' \x00{}\x00 '.format(len(chars) - 1)
-    contents = re.sub(r"'(\\.|[^\\'])'", stash, line.contents)
+    contents = re.sub(r"'(\\x[0-9a-fA-F]{2}|\\u[0-9a-fA-F]{4}|\\[0-7]{1,3}|\\.|[^\\'])'", stash, line.contents)
 
     # strip comments
     contents = re.sub(r'#.*$', r'', contents)
